@@ -348,6 +348,7 @@ def worker(job):
     part = Part()
     l1(part, r, n1)
     l1_framing(part, r, max(50, n1 // 2))
+    l1_astring(part, r, max(60, n1 // 2))
     l3(part, r, n3)
     return part.result()
 
@@ -414,6 +415,78 @@ def l1_framing(part, r, n):
                     if g != mres:
                         part.violation('correspondence', f'{who} took {g} bytes of {s[:120]!r}, Framing.readCmd {mres}', dict(level='L1', stream=list(s)), signature='l1-framing')
     signal.signal(signal.SIGALRM, old_handler)
+
+
+def l1_astring(part, r, n):
+    """`AString.parse` (atom / quoted / {n+} literal, with the length limit) vs `AStr.parse` (about which C18_astring_spelling is proved), and the
+    metamorphic statement itself on the real parser: the spellings of one value parse to the same value and rest, or are all refused"""
+    from pymap.parsing import Params
+    from pymap.parsing.exceptions import NotParseable, UnexpectedType
+    from pymap.parsing.specials import AString
+    atom_chars = bytes(c for c in range(0x21, 0x7f) if c not in b'"%()*\\{}')
+    jobs = []
+    for _ in range(n):
+        lim = r.choice([4096, 4096, 4096, 5, 0, 17])
+        x = r.random()
+        if x < 0.25:
+            v = bytes(r.choice(atom_chars) for _ in range(r.choice([1, 2, 5, 6, 17, 18, 30])))
+        elif x < 0.45:
+            v = b'a' * r.choice([4095, 4096, 4097, 5000])
+        else:
+            v = gen_bytes(r)
+        rest = r.choice([b'', b' x', b'\r\n', b')', b'"', b' {3+}\r\nabc', b'a', b'~', b'{', b'\x00'])
+        lead = r.choice([b'', b'', b' ', b'   '])
+        spellings = {'lit+': b'{%d+}' % len(v) + r.choice([b'\r\n', b'\n']) + v}
+        if all(c not in (10, 13) for c in v):
+            spellings['quoted'] = b'"' + v.replace(b'\\', b'\\\\').replace(b'"', b'\\"') + b'"'
+        if v and all(c in atom_chars for c in v) and not (rest[:1] and rest[0] in atom_chars):
+            spellings['atom'] = v
+        jobs.append((lim, v, rest, lead, spellings))
+        # and bytes that are no spelling of anything
+        if r.random() < 0.3:
+            junk = r.choice([b'{3}\r\nabc', b'~{2+}\r\nab', b'{+}\r\n', b'{2+}\r\na', b'{1+}x', b'"abc', b'"a\\x"', b'"a\rb"', b'', b' ', b'{02+}\nab c', b'%', b'"\\""', b'{1 +}\r\na',
+                             b'{99999999999999999999+}\r\n', gen_bytes(r)])
+            jobs.append((lim, None, b'', r.choice([b'', b' ']), {'junk': junk}))
+    lines, index = [], []
+    for j, (lim, v, rest, lead, spellings) in enumerate(jobs):
+        for how, sp in spellings.items():
+            lines.append(f'astring {lim} {nats(lead + sp + rest)}')
+            index.append((j, how))
+    res = batch(lines)
+
+    def real(lim, buf):
+        # the limit is a class constant for ordinary commands and a configuration value for APPEND: both paths are exercised
+        if lim == 4096:
+            params = Params(allow_continuations=False)
+        else:
+            params = Params(command_name=b'APPEND', max_append_len=lim, allow_continuations=False)
+        try:
+            got, after = AString.parse(memoryview(buf), params)
+            return nats(got.value) + '|' + nats(bytes(after))
+        except (NotParseable, UnexpectedType):
+            return 'none'
+    seen = {}
+    for (j, how), mres in zip(index, res):
+        lim, v, rest, lead, spellings = jobs[j]
+        buf = lead + spellings[how] + rest
+        case = dict(level='L1', astring=list(buf[:300]), limit=lim, spelling=how, length=len(buf))
+        with guarded(part, 'C18 L1 astring', case):
+            got = real(lim, buf)
+            part.stat('l1-astring:' + how)
+            part.case(key=f'astr:{lim}:{how}:' + buf[:80].hex() + f':{len(buf)}', nontrivial=how != 'atom')
+            if got != mres:
+                part.violation('correspondence', f'AString.parse({buf[:80]!r}…, limit {lim}) = {got[:80]}, AStr.parse = {mres[:80]}', case, signature='l1-astring')
+            if v is not None:
+                seen.setdefault(j, {})[how] = got
+                want = (nats(v) + '|' + nats(rest)) if len(v) <= lim else 'none'
+                if got != want:
+                    part.violation('monitor', f'the {how} spelling of a {len(v)}-byte value {v[:40]!r} followed by {rest!r} parses to {got[:80]} under the limit {lim}; '
+                                   f'the value and the rest are {want[:80]}', case, signature='astring-' + how)
+    for j, outs in seen.items():
+        if len(set(outs.values())) > 1:
+            lim, v, rest, lead, spellings = jobs[j]
+            part.violation('monitor', f'spellings of one {len(v)}-byte value {v[:40]!r} parse differently under the limit {lim}: ' + ', '.join(f'{h}: {o[:40]}' for h, o in outs.items()),
+                           dict(level='L1', value=list(v[:300]), length=len(v), limit=lim), signature='astring-spellings-differ')
 
 
 def run(ctx):
